@@ -1389,3 +1389,99 @@ func ctxFieldPath(v ssa.Value, ctx dctx) (ssa.Value, []string) {
 	}
 	return root, p
 }
+
+// fnCtx is a function body together with the chain of call sites through which it is entered
+// from a rule's anchor function (nil for the anchor itself).
+type fnCtx struct {
+	fn  *ssa.Function
+	ctx dctx
+}
+
+// helperContexts lists the anchor and the same-package helpers it calls (transitively up to
+// depth), each with its entering context: the bodies a maintainer may have split the anchor into.
+func helperContexts(f *ssa.Function, depth int) []fnCtx {
+	out := []fnCtx{{f, nil}}
+	var visit func(g *ssa.Function, ctx dctx, d int)
+	visit = func(g *ssa.Function, ctx dctx, d int) {
+		if d >= depth {
+			return
+		}
+		eachInstr(g, func(in ssa.Instruction) {
+			call, ok := in.(*ssa.Call)
+			if !ok {
+				return
+			}
+			h := helperBody(call)
+			if h == nil || h == f {
+				return
+			}
+			for _, c := range ctx {
+				if helperBody(c) == h {
+					return // recursion
+				}
+			}
+			nc := append(append(dctx{}, ctx...), call)
+			out = append(out, fnCtx{h, nc})
+			visit(h, nc, d+1)
+		})
+	}
+	visit(f, nil, 0)
+	return out
+}
+
+// ctxAtom renders v as atomStr does, but with the parameters of helpers replaced by what the
+// anchor passed for them (so `$host` inside cachedCert(host) reads as the caller's expression).
+func ctxAtom(v ssa.Value, ctx dctx) string { return ctxRewrite(atomStr(v), ctx) }
+
+// ctxRewrite replaces helper parameters (`$name`) in a rendered atom / fact by the caller's expressions.
+func ctxRewrite(s string, ctx dctx) string {
+	for i := len(ctx) - 1; i >= 0; i-- {
+		call := ctx[i]
+		g := helperBody(call)
+		if g == nil {
+			break
+		}
+		args := callArgs(call)
+		type rep struct{ from, to string }
+		var reps []rep
+		for j, p := range g.Params {
+			if j < len(args) {
+				reps = append(reps, rep{"$" + p.Name(), atomStr(args[j])})
+			}
+		}
+		sort.Slice(reps, func(a, b int) bool { return len(reps[a].from) > len(reps[b].from) })
+		// two-phase replacement so that a substituted text is not rewritten again
+		for k, rp := range reps {
+			s = replaceToken(s, rp.from, fmt.Sprintf("\x00%d\x00", k))
+		}
+		for k, rp := range reps {
+			s = strings.ReplaceAll(s, fmt.Sprintf("\x00%d\x00", k), rp.to)
+		}
+	}
+	return s
+}
+
+// ctxFactStrs: the facts at a site of a helper, in the anchor's terms.
+func ctxFactStrs(g *ssa.Function, site ssa.Instruction, ctx dctx) map[string]bool {
+	out := map[string]bool{}
+	for k := range factStrs(g, site) {
+		out[ctxRewrite(k, ctx)] = true
+	}
+	return out
+}
+
+// nilFacts: what the facts say about the nil-ness of the value whose atom starts with prefix.
+func nilFacts(fs map[string]bool, prefix string) (nonNil, isNil bool) {
+	for k := range fs {
+		if !strings.HasPrefix(k, prefix) {
+			continue
+		}
+		switch {
+		case strings.HasSuffix(k, "!=nil=true"), strings.HasSuffix(k, "==nil=false"):
+			nonNil = true
+		case strings.HasSuffix(k, "!=nil=false"), strings.HasSuffix(k, "==nil=true"):
+			isNil = true
+		}
+	}
+	return
+}
